@@ -6,7 +6,7 @@ import ast
 from fractions import Fraction
 from typing import Optional
 
-from ..core.repo import (AnalysisError, Repo, call_name, calls_in, definitions, dotted, is_const,
+from ..core.repo import (AnalysisError, Repo, call_name, calls_in, definitions, dotted, func_params, is_const,
                          kwarg, names_in, unparse, walk_no_nested_defs)
 from ..domains.algnf import NotArithmetic, Poly, Rat, from_ast
 from ..domains.kat import COL, ROW, Comp, Ext, KAT, Pair, Seq
@@ -79,6 +79,10 @@ class ExpArg:
             inner = self._ev(e.value, depth)
             if inner.symbols() & {"I"}:
                 return inner
+            syms = inner.symbols()
+            if len(syms) == 1 and len(inner.n.t) == 1 and not inner.d.symbols():
+                # an indexed real atom keeps the atom's identity (role), whatever the local is called
+                return Rat.sym(f"⟨{next(iter(syms))}[{unparse(e.slice)}]⟩")
             return Rat.sym(f"⟨{unparse(e)}⟩")
         if isinstance(e, ast.Call):
             cn = call_name(e) or ""
@@ -136,7 +140,7 @@ def run(check, repo: Repo) -> None:
     # ---- R1 unit-modulus propagators ----------------------------------------------------------------
     pmod, prop = repo.func(f"{PM}:ProbeBase._compute_propagator_arrays")
     check.analysed(f"{PM}:ProbeBase._compute_propagator_arrays")
-    real = {"wavelength", "dz", "k2", "kr", "kc", "theta_r", "theta_c", "slice_thicknesses", "sampling"}
+    real = {"slice_thicknesses", "sampling"} & set(func_params(prop))
     exps = _exp_calls(prop)
     check.floor("propagator exponentials", len(exps), 3)
     check.assume("slice thicknesses, tilts, wavelength and fftfreq grids are real-valued (role table); dz/k2 carry a complex dtype but real values")
@@ -149,10 +153,10 @@ def run(check, repo: Repo) -> None:
                      fail_detail=f"the exponent `{unparse(c.args[0])[:60]}` resolves to terms with {sorted(ea.imag_degrees())} factors of i "
                                  f"(needs exactly one): the kernel is not unit-modulus, propagation does not conserve intensity and "
                                  f"conj(propagator) is not its inverse")
-        deg = ea.degree_in({"dz"})
+        deg = ea.degree_in({"slice_thicknesses"})
         check.decide(deg == {1}, "C16-R6", f"_compute_propagator_arrays: exponent of `{unparse(c)[:40]}` is homogeneous-linear in the slice thickness",
-                     f"degree in dz: {sorted(deg)}", pmod.line(c),
-                     fail_detail=f"degree in dz is {sorted(deg)}: P(dz)·P(−dz) ≠ 1")
+                     f"degree in slice_thicknesses: {sorted(deg)}", pmod.line(c),
+                     fail_detail=f"degree in slice_thicknesses is {sorted(deg)}: P(dz)·P(−dz) ≠ 1")
     # the returned propagators are the product of those exponentials only
     mults = [n for n in walk_no_nested_defs(prop) if isinstance(n, ast.Assign) and dotted(n.targets[0]) == "propagators"]
     ok = all(isinstance(n.value, ast.Call) and (call_name(n.value) or "").split(".")[-1] in ("exp", "empty") or
@@ -160,19 +164,41 @@ def run(check, repo: Repo) -> None:
               and isinstance(n.value.right, ast.Call) and (call_name(n.value.right) or "").endswith("exp")) for n in mults)
     check.decide(ok, "C16-R1", "_compute_propagator_arrays: the kernel is a product of unit-modulus exponentials only", "", pmod.line(prop),
                  fail_detail="the propagators receive a factor that is not one of the exponentials")
-    # tilt terms use the frequency vector of their own axis
-    kp = KAT(prop).run()
-    for stmt in mults:
-        if isinstance(stmt.value, ast.BinOp):
-            t = unparse(stmt.value.right)
-            ok = ("kr_term" in t and "kr[None, :, None]" in t) or ("kc_term" in t and "kc[None, None, :]" in t)
-            check.decide(ok, "C16-R7", f"_compute_propagator_arrays: tilt ramp `{t[:40]}` pairs its tilt with the frequency vector and axis of the same direction", "", pmod.line(stmt),
-                         fail_detail=f"`{t}` mixes the row/column tilt term with the other axis' frequencies or broadcast position")
-    ok, why = _freq_axes(prop)
+    # frequency vectors by role: the locals bound to fftfreq(extent, sampling) of axis 0 / axis 1
+    ok, why, fnames = _freq_axes(prop)
     if ok is None:
         raise AnalysisError(f"_compute_propagator_arrays: frequency grid construction not recognised: {why}")
     check.decide(ok, "C16-R7", "_compute_propagator_arrays: each frequency vector uses the extent and sampling of its own axis", why, pmod.line(prop),
                  fail_detail=f"{why}: anisotropic sampling (e.g. a non-square ROI) reaches the wrong axis and the Fresnel kernel is distorted")
+    # every broadcast use of a frequency vector puts it on its own axis (second-to-last = rows, last = columns)
+    uses = 0
+    for n in walk_no_nested_defs(prop):
+        if isinstance(n, ast.Subscript) and isinstance(n.value, ast.Name) and n.value.id in fnames:
+            pos = _broadcast_axis(n.slice)
+            if pos is None:
+                continue
+            uses += 1
+            check.decide(pos == fnames[n.value.id] - 2, "C16-R7",
+                         f"_compute_propagator_arrays: `{unparse(n)}` broadcasts the axis-{fnames[n.value.id]} frequencies along axis {fnames[n.value.id]}", "", pmod.line(n),
+                         fail_detail=f"`{unparse(n)}` lays the axis-{fnames[n.value.id]} frequency vector along the other axis")
+    check.floor("broadcast uses of the frequency vectors", uses, 4)
+    # tilt terms pair the tilt component of an axis with the frequency vector of the same axis
+    tilt = _tilt_components(prop)
+    for stmt in mults:
+        if not isinstance(stmt.value, ast.BinOp):
+            continue
+        e = stmt.value.right.args[0]
+        used_f = {x.id for x in ast.walk(e) if isinstance(x, ast.Name) and x.id in fnames}
+        used_t = set()
+        for x in ast.walk(_resolve_names(prop, e)):
+            if isinstance(x, ast.Name) and x.id in tilt:
+                used_t.add(tilt[x.id])
+        t = unparse(stmt.value.right)
+        if len(used_f) != 1 or len(used_t) != 1:
+            raise AnalysisError(f"_compute_propagator_arrays: tilt ramp `{t[:60]}` not recognised (frequency vectors {sorted(used_f)}, tilt components {sorted(used_t)})")
+        fa = fnames[next(iter(used_f))]
+        check.decide(fa == next(iter(used_t)), "C16-R7", f"_compute_propagator_arrays: tilt ramp `{t[:40]}` pairs its tilt with the frequency vector of the same direction", "", pmod.line(stmt),
+                     fail_detail=f"`{t}` multiplies the axis-{next(iter(used_t))} tilt with the axis-{fa} frequencies")
 
     # ---- R2 isometry chains -----------------------------------------------------------------------------
     sites = []
@@ -260,10 +286,16 @@ def run(check, repo: Repo) -> None:
 
 
 def _freq_axes(prop):
-    """kr ↔ (roi_shape[0], sampling[0]), kc ↔ (roi_shape[1], sampling[1]) — zipped or spelled out."""
-    grid = [d for d in definitions(prop, "kr") if d.__class__.__name__ == "TupleItem"]
-    if grid:
-        g = next((x for x in ast.walk(grid[0].value) if isinstance(x, ast.GeneratorExp)), None)
+    """The two frequency vectors ↔ (roi_shape[i], sampling[i]) — zipped or spelled out.  Returns
+    (ok, description, {local name: axis})."""
+    grids = []
+    for st in walk_no_nested_defs(prop):
+        if isinstance(st, ast.Assign) and any(isinstance(c, ast.Call) and (call_name(c) or "").endswith("fftfreq") for c in ast.walk(st.value)):
+            grids.append(st)
+    if len(grids) == 1 and isinstance(grids[0].targets[0], ast.Tuple) and len(grids[0].targets[0].elts) == 2 \
+            and all(isinstance(t, ast.Name) for t in grids[0].targets[0].elts):
+        names = {t.id: i for i, t in enumerate(grids[0].targets[0].elts)}
+        g = next((x for x in ast.walk(grids[0].value) if isinstance(x, ast.GeneratorExp)), None)
         if g is not None and len(g.generators) == 1 and isinstance(g.generators[0].iter, ast.Call) and call_name(g.generators[0].iter) == "zip":
             za = [unparse(a) for a in g.generators[0].iter.args]
             tv = [unparse(t) for t in g.generators[0].target.elts] if isinstance(g.generators[0].target, ast.Tuple) else []
@@ -272,24 +304,58 @@ def _freq_axes(prop):
                 n_src = za[tv.index(unparse(el.args[0]))] if unparse(el.args[0]) in tv else None
                 d_src = za[tv.index(unparse(el.args[1]))] if unparse(el.args[1]) in tv else None
                 if n_src == "self.roi_shape" and d_src == "sampling":
-                    return True, "fftfreq(n, d) zipped over (roi_shape, sampling)"
-                return False, f"fftfreq({n_src}, {d_src}) zipped"
-        return None, unparse(grid[0].value)[:80]
-    out = {}
-    for nm, ax in (("kr", 0), ("kc", 1)):
-        dd = [x for x in definitions(prop, nm) if isinstance(x, ast.AST)]
-        if len(dd) != 1 or not (isinstance(dd[0], ast.Call) and (call_name(dd[0]) or "").endswith("fftfreq") and len(dd[0].args) >= 2):
-            return None, f"{nm} definition"
+                    return True, "fftfreq(n, d) zipped over (roi_shape, sampling)", names
+                return False, f"fftfreq({n_src}, {d_src}) zipped", names
+        return None, unparse(grids[0].value)[:80], {}
+    if len(grids) != 2:
+        return None, f"{len(grids)} fftfreq assignments", {}
+    names, out = {}, {}
+    for st in grids:
+        if not (isinstance(st.targets[0], ast.Name) and isinstance(st.value, ast.Call) and (call_name(st.value) or "").endswith("fftfreq") and len(st.value.args) >= 2):
+            return None, f"`{unparse(st)[:60]}`", {}
         idx = []
-        for a in dd[0].args[:2]:
+        for a in st.value.args[:2]:
             sub = [x for x in ast.walk(a) if isinstance(x, ast.Subscript) and isinstance(x.slice, ast.Constant)]
             if len(sub) != 1:
-                return None, f"{nm}: `{unparse(a)}`"
+                return None, f"`{unparse(a)}`", {}
             idx.append((unparse(sub[0].value), sub[0].slice.value))
-        out[nm] = idx
-        if idx[0] != ("self.roi_shape", ax) or idx[1] != ("sampling", ax):
-            return False, f"{nm} = fftfreq({idx[0][0]}[{idx[0][1]}], {idx[1][0]}[{idx[1][1]}])"
-    return True, str(out)
+        if idx[0][0] != "self.roi_shape" or idx[0][1] not in (0, 1):
+            return None, f"extent `{idx[0]}`", {}
+        names[st.targets[0].id] = idx[0][1]
+        out[st.targets[0].id] = idx
+    if sorted(names.values()) != [0, 1]:
+        return None, f"axes {names}", {}
+    for nm, idx in out.items():
+        if idx[1] != ("sampling", idx[0][1]):
+            return False, f"{nm} = fftfreq({idx[0][0]}[{idx[0][1]}], {idx[1][0]}[{idx[1][1]}])", names
+    return True, str(out), names
+
+
+def _broadcast_axis(sl: ast.AST):
+    """Position (counted from the end: −2 rows, −1 columns) a 1-D vector occupies after `v[None, :, None]`-style
+    indexing; None if the index is not a pure broadcast."""
+    elts = sl.elts if isinstance(sl, ast.Tuple) else [sl]
+    kinds = []
+    for e in elts:
+        if is_const(e, None):
+            kinds.append("n")
+        elif isinstance(e, ast.Slice) and e.lower is None and e.upper is None and e.step is None:
+            kinds.append("s")
+        else:
+            return None
+    if kinds.count("s") > 1 or "n" not in kinds:
+        return None
+    if "s" not in kinds:
+        kinds.append("s")  # v[None] ≡ v[None, :]
+    return kinds.index("s") - len(kinds)
+
+
+def _tilt_components(prop) -> dict:
+    """{local name: axis} for the names destructured from self.probe_tilt."""
+    for st in walk_no_nested_defs(prop):
+        if isinstance(st, ast.Assign) and isinstance(st.targets[0], ast.Tuple) and dotted(st.value) == "self.probe_tilt" and len(st.targets[0].elts) == 2:
+            return {t.id: i for i, t in enumerate(st.targets[0].elts) if isinstance(t, ast.Name)}
+    raise AnalysisError("_compute_propagator_arrays: `… = self.probe_tilt` destructuring not found")
 
 
 def _resolve_names(fn, e: ast.AST, depth: int = 0) -> ast.AST:
